@@ -20,6 +20,49 @@ MUTANTS = {
         ('while-test-inverted', IN, 'if condition_result.is_success() != is_while {', 'if condition_result.is_success() == is_while {'),
         ('body-gets-cond-params', IN, 'result = body.list.execute(shell, params).await?;', 'result = body.list.execute(shell, &condition_params).await?;'),
     ],
+    'U4c': [
+        ('cond-zero-continues', IN, 'condition.eval(shell, params, true).await? == 0 {', 'condition.eval(shell, params, true).await? != 0 {'),
+        ('updater-before-break-check', IN, '''            if is_break || result.is_continue() {
+                break;
+            }
+
+            if let Some(updater) = &self.updater {
+                updater.eval(shell, params, true).await?;
+            }''', '''            if let Some(updater) = &self.updater {
+                updater.eval(shell, params, true).await?;
+            }
+
+            if is_break || result.is_continue() {
+                break;
+            }'''),
+        ('arithfor-no-decrement', IN, '''            let is_break = result.is_break();
+
+            result.next_control_flow = result.next_control_flow.try_decrement_loop_levels();
+
+            if is_break || result.is_continue() {
+                break;
+            }
+
+            if let Some(updater)''', '''            let is_break = result.is_break();
+
+            if is_break || result.is_continue() {
+                break;
+            }
+
+            if let Some(updater)'''),
+        ('initializer-skipped', IN, '''        if let Some(initializer) = &self.initializer {
+            initializer.eval(shell, params, true).await?;
+        }
+''', ''),
+        ('arithfor-final-status-dropped', IN, '''                updater.eval(shell, params, true).await?;
+            }
+        }
+
+        shell.set_last_exit_status(result.exit_code.into());''', '''                updater.eval(shell, params, true).await?;
+            }
+        }
+'''),
+    ],
     'U4d': [
         ('if-cond-not-suppressed', IN, '        // Execute condition with errexit suppressed\n        let mut condition_params = params.clone();\n        condition_params.suppress_errexit = true;\n        let condition = self.condition', '        let mut condition_params = params.clone();\n        condition_params.suppress_errexit = params.suppress_errexit;\n        let condition = self.condition'),
         ('elif-cond-uses-caller-params', IN, 'else_condition.execute(shell, &condition_params).await?;', 'else_condition.execute(shell, params).await?;'),
@@ -35,6 +78,59 @@ MUTANTS = {
         ('nonnormal-flow-not-stopping', IN, '            // Check for non-normal control flow.\n            if !result.is_normal_flow() {\n                break;\n            }\n\n            let (is_and, pipeline)', '            let (is_and, pipeline)'),
         ('and-or-swapped', IN, 'ast::AndOr::And(p) => (true, p),\n                ast::AndOr::Or(p) => (false, p),', 'ast::AndOr::And(p) => (false, p),\n                ast::AndOr::Or(p) => (true, p),'),
         ('is-last-off-by-one', IN, 'let is_last = index == self.additional.len() - 1;', 'let is_last = index + 1 == self.additional.len() - 1;'),
+    ],
+    'U4g': [
+        ('list-continues-after-nonnormal', IN, '''                shell.set_last_exit_status(result.exit_code.into());
+            }
+
+            if !result.is_normal_flow() {
+                break;
+            }
+        }
+
+        Ok(result)
+    }
+}
+
+fn spawn_async_ao_list_in_task''', '''                shell.set_last_exit_status(result.exit_code.into());
+            }
+        }
+
+        Ok(result)
+    }
+}
+
+fn spawn_async_ao_list_in_task'''),
+        ('async-status-not-zero', IN, '''                    writeln!(params.stderr(shell), "{job_formatted}")?;
+                }
+
+                result = ExecutionResult::success();''', '''                    writeln!(params.stderr(shell), "{job_formatted}")?;
+                }
+'''),
+        ('list-status-not-updated', IN, '''                result = ao_list.execute(shell, params).await?;
+
+                // Update status
+                shell.set_last_exit_status(result.exit_code.into());''', '''                result = ao_list.execute(shell, params).await?;'''),
+        ('sync-run-as-async', IN, 'let run_async = matches!(sep, ast::SeparatorOperator::Async);', 'let run_async = !matches!(sep, ast::SeparatorOperator::Async);'),
+    ],
+    'U4h': [
+        ('program-error-propagates', IN, '''                Err(err) => {
+                    // Display the error and convert to an execution result.
+                    let _ = shell.display_error(&mut params.stderr(shell), &err);
+                    result = err.into_result(shell);
+                }''', '''                Err(err) => {
+                    return Err(err);
+                }'''),
+        ('program-status-not-updated', IN, '''            // Update status
+            shell.set_last_exit_status(result.exit_code.into());
+
+            // Check if we should stop executing subsequent commands''', '''            // Check if we should stop executing subsequent commands'''),
+        ('program-ignores-exit', IN, '''            // Check if we should stop executing subsequent commands
+            if !result.is_normal_flow() {
+                break;
+            }''', '''            if result.is_break() {
+                break;
+            }'''),
     ],
     'U5': [
         ('sub-becomes-add', AR, 'Ok(left.wrapping_sub(right))', 'Ok(left.wrapping_add(right))'),
